@@ -372,6 +372,14 @@ def _gen_alleles(rng, gene, opts):
     nmaj = opts["n_major"]
     used_sets = {()}
     num = 2
+    reserved = []
+    if opts.get("orphan_core") == "always":
+        # set two core substitutions aside for the orphan allele (below) so that no other allele uses them
+        pool = [f for f in func if vs[f]["kind"] == "snp" and not vs[f].get("edge")
+                and sum(1 for x in vs.values() if x["g"] == vs[f]["g"]) == 1]
+        if len(pool) >= 2 and len(func) >= 3:
+            reserved = pool[-2:]
+            func = [f for f in func if f not in reserved]
     # singles first, then combinations (ambiguous catalogues on request)
     cand = []
     # variants on the edge of the mapped range come first so that they always get an allele
@@ -422,7 +430,7 @@ def _gen_alleles(rng, gene, opts):
         # an allele defined by two core variants none of which has an allele of its own: seeing only
         # one of them leaves that variant without any usable carrier
         used_now = {v for a in alleles for v in a["vars"]}
-        free = [f for f in func if f not in used_now and vs[f]["kind"] in ("snp", "mnp")]
+        free = reserved + [f for f in func if f not in used_now and vs[f]["kind"] in ("snp", "mnp")]
         free = [f for i, f in enumerate(free) if all(vs[f]["g"] != vs[x]["g"] for x in free[:i])]
         if len(free) >= 2:
             alleles.append({"name": f"{num}.001", "kind": "normal", "vars": free[:2]})
